@@ -350,8 +350,8 @@ Variable p : params.
 Variable tv : hdr -> hdr -> tvres.
 Variable sync : bool.
 
-Lemma post_L s : L (post sync s) = L s.
-Proof. unfold post. destruct sync; [apply sync_done_L|reflexivity]. Qed.
+Lemma post_L s : L s <= L (post sync s).
+Proof. unfold post. destruct sync; [apply sync_done_mono|lia]. Qed.
 
 Lemma head_matches_proj st h : head_matches st h (proj st (ROk h)) = true.
 Proof. unfold proj, head_matches. destruct st; [reflexivity|]. rewrite !N.eqb_refl. reflexivity. Qed.
